@@ -12,14 +12,24 @@ import (
 	"github.com/ajitpratap0/GoSQLX/pkg/sql/ast"
 )
 
+// checkContext reports the cancellation of the context the parser was given,
+// if any. Context cancellation is not a syntax error: it is wrapped directly.
+// It is polled at every expression and once per operator of a chain, so a
+// long a + b + c + ... or x AND y AND ... is abandoned promptly too.
+func (p *Parser) checkContext() error {
+	if p.ctx != nil {
+		if err := p.ctx.Err(); err != nil {
+			return fmt.Errorf("parsing cancelled: %w", err)
+		}
+	}
+	return nil
+}
+
 // parseExpression parses an expression with OR operators (lowest precedence)
 func (p *Parser) parseExpression() (ast.Expression, error) {
 	// Check context if available
-	if p.ctx != nil {
-		if err := p.ctx.Err(); err != nil {
-			// Context cancellation is not a syntax error, wrap it directly
-			return nil, fmt.Errorf("parsing cancelled: %w", err)
-		}
+	if err := p.checkContext(); err != nil {
+		return nil, err
 	}
 
 	// Check recursion depth to prevent stack overflow
@@ -43,6 +53,9 @@ func (p *Parser) parseExpression() (ast.Expression, error) {
 
 	// Handle OR operators (lowest precedence, left-associative)
 	for p.isType(models.TokenTypeOr) {
+		if err := p.checkContext(); err != nil {
+			return nil, err
+		}
 		operator := p.currentToken.Literal
 		p.advance() // Consume OR
 
@@ -71,6 +84,9 @@ func (p *Parser) parseAndExpression() (ast.Expression, error) {
 
 	// Handle AND operators (middle precedence, left-associative)
 	for p.isType(models.TokenTypeAnd) {
+		if err := p.checkContext(); err != nil {
+			return nil, err
+		}
 		operator := p.currentToken.Literal
 		p.advance() // Consume AND
 
@@ -365,6 +381,9 @@ func (p *Parser) parseStringConcatExpression() (ast.Expression, error) {
 
 	// Handle || (string concatenation) operator (left-associative)
 	for p.isType(models.TokenTypeStringConcat) {
+		if err := p.checkContext(); err != nil {
+			return nil, err
+		}
 		operator := p.currentToken.Literal
 		p.advance() // Consume ||
 
@@ -393,6 +412,9 @@ func (p *Parser) parseAdditiveExpression() (ast.Expression, error) {
 
 	// Handle + and - operators (left-associative)
 	for p.isType(models.TokenTypePlus) || p.isType(models.TokenTypeMinus) {
+		if err := p.checkContext(); err != nil {
+			return nil, err
+		}
 		operator := p.currentToken.Literal
 		p.advance() // Consume operator
 
@@ -424,6 +446,9 @@ func (p *Parser) parseMultiplicativeExpression() (ast.Expression, error) {
 	// We check context: after an expression, asterisk means multiplication
 	for p.isType(models.TokenTypeAsterisk) || p.isType(models.TokenTypeMul) ||
 		p.isType(models.TokenTypeDiv) || p.isType(models.TokenTypeMod) {
+		if err := p.checkContext(); err != nil {
+			return nil, err
+		}
 		operator := p.currentToken.Literal
 		p.advance() // Consume operator
 
@@ -470,6 +495,9 @@ func (p *Parser) parseJSONExpression() (ast.Expression, error) {
 
 	// Handle JSON operators (left-associative for chaining like data->'a'->'b')
 	for p.isJSONOperator() {
+		if err := p.checkContext(); err != nil {
+			return nil, err
+		}
 		operator := p.currentToken.Literal
 		operatorType := p.currentToken.Type
 		p.advance() // Consume JSON operator
